@@ -162,6 +162,17 @@ func minimise(w World, p *Plan, v *Violation, budgetS float64) (*Plan, *Violatio
 				break
 			}
 		}
+		for best.Ops[i].N == "Fill" && best.Ops[i].A[0] > 1 {
+			c := best.Clone()
+			c.Ops[i].A = []int{best.Ops[i].A[0] / 2, best.Ops[i].A[1]}
+			if !try(c) {
+				c = best.Clone()
+				c.Ops[i].A = []int{best.Ops[i].A[0] - 1, best.Ops[i].A[1]}
+				if best.Ops[i].A[0] > 64 || !try(c) {
+					break
+				}
+			}
+		}
 		for len(best.Ops[i].B) > 0 {
 			c := best.Clone()
 			b := c.Ops[i].B
